@@ -761,10 +761,22 @@ func (v *view) blankLimit(have, want metadata.MD) string {
 	if v.r.Transport != THTTP {
 		return ""
 	}
-	if ok, _ := mdContains(have, trimMD(want)); ok {
-		return "|md-outer-blanks"
+	// per value: delivered as it is, or without the blanks at its ends
+	for k, w := range want {
+		h := have[k]
+		if len(w) == 0 {
+			continue
+		}
+		if len(h) != len(w) {
+			return ""
+		}
+		for i := range w {
+			if h[i] != w[i] && (strings.HasSuffix(k, "-bin") || h[i] != strings.Trim(w[i], " \t")) {
+				return ""
+			}
+		}
 	}
-	return ""
+	return "|md-outer-blanks"
 }
 
 func (v *view) expectedTrailers() metadata.MD {
@@ -1154,7 +1166,7 @@ func (v *view) oracleC05() {
 		}
 	}
 	// receives after the terminal outcome repeat it
-	if v.terminal != nil && v.terminal.Op == "recv" && !v.single {
+	if v.terminal != nil && v.terminal.Op == "recv" && (!v.single || (v.terminal.Err != nil && !v.terminal.Err.IsNil() && v.terminal.Flags["mismatch"] != "1")) {
 		for _, rv := range v.cRecv {
 			if rv.RSeq == 0 || rv.Seq <= v.terminal.RSeq {
 				continue
